@@ -47,3 +47,14 @@ static parsec_key_t ref_make_key(const REF_TP_T *tp, int c, const parsec_assignm
 {
     (void)c; return __jdf2c_make_key_STARTUP((const parsec_taskpool_t *)tp, l);
 }
+
+static int ref_pred(const int *g, int c, const int *p, int f, int *pc, int *pp, int *pf)
+{ (void)g; (void)c; (void)p; (void)f; (void)pc; (void)pp; (void)pf; return 0; }
+static int ref_is_ctl(int c, int f) { (void)c; (void)f; return 0; }
+
+/* key of instance (c, p) through the real generated make_key */
+static parsec_key_t ref_key_of(const REF_TP_T *tp, const int *g, int c, const int *p)
+{
+    if (c == 0) { __parsec_startup_STARTUP_parsec_assignment_t a = { 0 }; ref_STARTUP_fill(&a, g, p); return __jdf2c_make_key_STARTUP((const parsec_taskpool_t *)tp, (const parsec_assignment_t *)&a); }
+    return 0;
+}
